@@ -86,7 +86,7 @@ func (p *PduSubmit) IEncode() ([]byte, error) {
 	}
 	p.TotalLength = HeaderLength + // header
 		116 + // DestUsrTL 之前的字段长度
-		1 + uint32(21*p.DestUsrTL) + // DestUsrTL 和 DestTerminalID
+		1 + 21*uint32(p.DestUsrTL) + // DestUsrTL 和 DestTerminalID
 		1 + uint32(p.MsgLength) + // MsgLength 和 MsgContent
 		8 // reversed
 
